@@ -272,6 +272,12 @@ def mem_drop(ex, v):
     return ()
 
 
+@nat('<Box as Drop>::drop', '<Vec as Drop>::drop', '<* as Drop>::drop')
+def drop_in_place(ex, r):
+    ex.drop_value(D(ex, r))
+    return ()
+
+
 @nat('mem::forget')
 def mem_forget(ex, v): return ()
 
